@@ -37,6 +37,22 @@ What is a function of the text and what is fixed here
     *oracle*: an input of the generated function named after the callee (per loop
     element: a field of the generated per-element structure).
 
+Rendering
+  * one Lean `def` per function over explicit inputs: what the function reads of its entities
+    (`entity.member`, members of the entity's context, oracles), then its unsigned parameters; result =
+    `Except Thrown (written context members ..., by-reference parameters ...)`.  A context member that is not
+    written on every path is returned as `Option` (none = not written).
+  * statements are rendered in continuation-passing style: what follows an `if` is rendered in both branches
+    (so that "the optional is engaged here" is known where `*o` occurs); an `if` whose branches only assign is
+    rendered as `let (a, b) := if c then (..) else (..)`.
+  * a range-`for` becomes a structurally recursive `<fn>.loop` over a list of `<fn>.Item` (the per-element
+    inputs), carrying the locals the body assigns; it returns per element what was stored for it.
+  * the context of a loop element must exist before it is read: `ctx_manager->create(e)` or a call of
+    `validate_encoding(e)` (table `CREATES_CONTEXT`) earlier in the loop body; otherwise the function fails
+    ("validate, then lay out").
+  * `validate_block_length` must end with `validate_header_value(level, "blockLength", <the stored value>)`
+    (a rule of its own, C08 `headerValueOutOfRange`); the translator asserts it (`report['continuations']`).
+
 C++ typing assumed (read from the sources where possible)
   * `offset_t`, `block_length_t`: read from `using X = std::uintN_t;` in sbepp.hpp;
     `std::size_t`: 64-bit unsigned.  Values of these types are `Nat` below their
@@ -1911,7 +1927,6 @@ def translate(types, fn, lean, sigs, lean_names):
     decls += doc
     decls.append('def %s %s : Except Thrown (%s) :=' % (lean, ' '.join(ps), rty))
     decls += indent(body)
-    sig.doc_lines = len(doc)
     sig.lines = decls
     sig.other_rules = sl.other
     sig.wraps = r.wraps
@@ -1946,9 +1961,9 @@ def extract(repo, outdir):
         a, b = cxx.find_class_body(src, CLASS)
         toks = tokenize(src[a:b], src.count('\n', 0, a) + 1)
         fns = scan_functions(toks, {t[0] for t in TARGETS})
-    except (ExtractError, OSError, ValueError) as ex:
+    except Exception as ex:        # noqa: a check must report this, not crash
         for _, _, lean in TARGETS:
-            report['failed'][lean] = 'cannot read the sources: %s' % ex
+            report['failed'][lean] = 'cannot read the sources: %s: %s' % (type(ex).__name__, ex)
         types, fns = None, []
     sigs = {}
     lean_names = {t[0] for t in TARGETS}
@@ -1965,8 +1980,8 @@ def extract(repo, outdir):
         except ExtractError as ex:
             report['failed'][lean] = str(ex)
             continue
-        except (KeyError, IndexError, TypeError, AttributeError) as ex:
-            report['failed'][lean] = 'internal: %r' % ex
+        except Exception as ex:    # noqa: a construct the translator does not foresee is an extraction failure
+            report['failed'][lean] = 'internal: %s: %s' % (type(ex).__name__, ex)
             continue
         if selector is None:
             sigs.setdefault(cname, []).append(sig)
